@@ -17,7 +17,7 @@ ASSUMPTIONS = [
 EXPLANATION = ("theorems: refinement of ParameterTable to an insertion-ordered map for all op sequences; "
                "RowCollector row preservation and sort = row permutation; grid bijection; Cartesian product laws")
 
-KEYS = ["aa", "bb", "cc", "dd", "k1", "x.y", "Zz"]
+KEYS = ["aa", "bb", "cc", "dd", "k1", "x.y", "Zz", "_off", "__raw"]
 SETTINGS = ["p", "q"]
 
 
@@ -189,17 +189,24 @@ def gen_rc(rng, maxlen):
     ncols = rng.randint(1, 4)
     names = ["c%d" % i for i in range(ncols)]
     ops = []
+    # value pool: small ints with ties, or (1 case in 6) 60-bit integers a few units apart, which
+    # differ only below the float64 spacing (a sort that goes through floats cannot order them)
+    big = rng.random() < 0.17
+    base = 2 ** 60 + rng.randint(0, 1000)
+
+    def val():
+        return base + rng.randint(0, 6) if big else rng.randint(0, 4)
     for _ in range(rng.randint(1, maxlen)):
         r = rng.random()
         if r < 0.45:
             extra = 1 if rng.random() < 0.1 else 0
-            ops.append(["row", [rng.randint(0, 4) for _ in range(ncols + extra)]])
+            ops.append(["row", [val() for _ in range(ncols + extra)]])
         elif r < 0.7:
             ks = names[:]
             rng.shuffle(ks)
             if rng.random() < 0.1:
                 ks = ks[:-1] if rng.random() < 0.5 or not ks else ks + ["zz"]
-            ops.append(["dict", [[k, rng.randint(0, 4)] for k in ks]])
+            ops.append(["dict", [[k, val()] for k in ks]])
         else:
             ops.append(["sort", rng.randrange(ncols), rng.random() < 0.4])
     if rng.random() < 0.05 and ncols > 1:
